@@ -55,6 +55,21 @@ TEXT = {
         level="Generated-input search: grammar-with-noise strings and []uint32 paths judged by an independent reference parser in both directions (accept iff, equal values), all 7381 strings of length <= 4 over the 9 significant characters enumerated completely, coverage-guided fuzzing in the thorough tier. Sampling of an infinite language: establishes no absence beyond the enumerated part.",
         note="Trusted: the hand-written reference parser in harness/c10 as the reading of the property's grammar; rapid's generators; Go's fmt for the reference printer.",
     ),
+    "C11": dict(
+        technique=_PBT + " + complete boundary grid; oracle = own score model (BLAKE2b -> b1t6 -> scalar Curl) and the literal soundness statement Score(data||nonce) >= target at targets exactly at / one ulp around 3^k/len; child-process execution for crash detection; hook-level bit-plane test",
+        level="Targets are constructed at fl(3^k/len) and its floating-point neighbours (complete grid k = 0..4/7 x len = 9..72, plus generated data/worker counts), at the float quotient +-2 ulp, random, and trivially low (down to 0, negative, subnormal) in a child process; every returned nonce is judged by the statement. Score itself is compared with an independent reference within 2 ulp. With the hook, checkStateTrits is tested on constructed 64-lane bit planes.",
+        note="Trusted: harness/ref/pow, ref/curl, ref/trit, x/crypto/blake2b. Hook (optional): VerifCheckStateTrits, VerifTrailingZeros.",
+    ),
+    "C12": dict(
+        technique=_PBT + "; oracle = own big-integer difficulty/score model; exhaustive re-hash of every skipped nonce block (single worker) for completeness; hook-level lane test on constructed bit planes with hashes at / around the target hash",
+        level="Mine is run on generated (data, target) with len*target at, just above and just below powers of three; the returned nonce must score >= target (soundness) and, with one worker, no earlier 64-block may contain a nonce whose reference difficulty exceeds len*target (every skipped nonce is re-hashed). With hooks, checkStateTrits / toInt / sufficientTrailingZeros / targetHash are compared with the reference on constructed planes whose lanes have exactly s-1 trailing zeros and integer values at, just below and just above the target hash, at lane 0, 63 and random.",
+        note="Trusted: harness/ref/pow on math/big. Hooks: VerifCheckStateTrits, VerifToInt, VerifSufficientTrailingZeros, VerifTargetHash; without them only the Mine/Score part runs.",
+    ),
+    "C13": dict(
+        technique=_PBT + " over configurations and cancellation instants, built with the Go race detector; oracle = result/error contract, bounded return after cancellation, goroutine accounting",
+        level="Generated configurations (both PoW versions, 1..64 workers, GOMAXPROCS 1..16, targets from every-lane-qualifies to unattainable, cancellation before / during / racing with the find) are executed; the result contract, return within 45 s of cancellation, and the disappearance of every pkg/pow goroutine within 5 s are checked; the whole binary runs under -race. Schedules are sampled, not enumerated: a defect needing one specific interleaving can be missed.",
+        note="Trusted: Go's race detector and runtime.Stack. Limits: see DESIGN.md section 6 (schedules).",
+    ),
     "C14": dict(
         technique=_PBT + " + complete enumeration of all 256 bytes, 729 b1t6 groups / tryte pairs and 6561 b1t8 groups; oracle = integer-arithmetic reference codec (two-sided, error kind and decoded count)",
         level="The per-group behaviour is decided exhaustively (every byte, every possible group); multi-group behaviour (first fault wins, remainder handling, decoded count, re-encoding) on generated sequences against the reference.",
